@@ -28,6 +28,7 @@ import tempfile
 from harness.common import MachineryError
 
 _W = {}
+_SEEN_M1 = set()          # controller exchange keys seen in M1 by this process (every exchange must bring a fresh one)
 
 
 def _world_consts():
@@ -56,17 +57,50 @@ def run_job(job):
         ctrl = A.ControllerIdentity(ios_id="%08x-%04x-%04x-%04x-%012x" % (frng.getrandbits(32), frng.getrandbits(16), frng.getrandbits(16),
                                                                            frng.getrandbits(16), frng.getrandbits(48)), seed=frng.randbytes(32))
         pd = ident.pairing_data(ctrl, hosts=("10.0.0.1",))
+    rec = job.get("record")
+    if rec:                              # an explicit pairing record (sequences of exchanges over several records in one process)
+        from harness.refacc import accessory as A
+        ident = A.Identity(acc_id=rec["acc_id"], seed=bytes.fromhex(rec["lt_seed"]))
+        ctrl = A.ControllerIdentity(ios_id=rec["ios_id"], seed=bytes.fromhex(rec["ctrl_seed"]))
+        pd = ident.pairing_data(ctrl, hosts=("10.0.0.1",))
     world = K.PVWorld(ident, resume=case["resume"])
-    info = {"m2": None, "m3_verdict": "not sent", "m1_verdict": None}
+    if rec and rec.get("other_lt_seed"):
+        from harness.refacc import crypto as C
+        world.other_lt = C.SigKey(bytes.fromhex(rec["other_lt_seed"]))
+    if rec and rec.get("other_id"):
+        world.other_id = rec["other_id"].encode()
+    info = {"m2": None, "m3_verdict": "not sent", "m1_verdict": None, "stale_key": False}
+    recorded = None
+    if job.get("real_replay"):
+        # an honest exchange run by the real code in this process; what the accessory answered is recorded ...
+        first = D.ScriptedAccessory(ident=ident)
+        o1 = {"gen": lambda: D.gen_pair_verify(first, pd, real_decoder=True), "ip": lambda: D.ip_pair_verify(first, pd),
+              "coap": lambda: D.coap_pair_verify(first, pd), "ble": lambda: D.ble_pair_verify(first, pd)}[tr]()
+        recorded = dict(first.replies)
+        if not o1.ok or "PV_M2" not in recorded or "PV_M4" not in recorded:
+            return {"observed": "fail", "exc": repr(o1.exc), "m3sent": False, "m2": "",
+                    "problems": ["the honest exchange that was to be recorded failed"]}
+        _SEEN_M1.add(bytes(dict(first.log[0][1])[T.PUBLIC_KEY]))
 
     def hook(acc, step, items, honest):
         if step == "PV_M2" and info["m2"] is None:
+            pk1 = bytes(dict(items).get(T.PUBLIC_KEY, b""))
+            if pk1 in _SEEN_M1:
+                info["stale_key"] = True
+            _SEEN_M1.add(pk1)
+            if recorded is not None:     # ... and sent again, unchanged, in a new exchange
+                honest()
+                info["m2"] = recorded["PV_M2"]
+                return info["m2"]
             honest()
             world.on_m1(acc.pv, items)
             if case["resume"]:
                 info["m1_verdict"] = K.resume_check_m1(world.S0, world.old_sid, items)
             info["m2"] = world.build_m2(r, case["wire"], case["partial"], job.get("how"), job.get("cut_bytes"))
             return info["m2"]
+        if step == "PV_M4" and recorded is not None:
+            acc.m3_seen = True
+            return recorded["PV_M4"]
         if step == "PV_M4":
             if world.presented is not None and world.presented is acc.pv.eph:
                 honest()                         # the honest accessory verifies M3 (and installs its session on IP)
@@ -100,6 +134,10 @@ def run_job(job):
         res["exc"] = f"M1 never arrived ({o!r})"
         return res
     pr = res["problems"]
+    if info["stale_key"]:
+        pr.append("the controller's exchange key in M1 was already used by an earlier exchange of this process (not fresh)")
+    if o.ok and recorded is not None:
+        return res
     if o.ok:
         resumed = not acc.m3_seen
         shared = world.reference_shared(resumed)
@@ -155,6 +193,47 @@ def _work(job):
         return {"observed": "machinery", "exc": traceback.format_exc()[-1500:], "m3sent": False, "problems": []}
 
 
+def _work_unit(unit):
+    """A unit is a list of jobs run one after the other in the same process."""
+    return [_work(j) for j in unit]
+
+
+def _sequences(ctx, cases):
+    """Sequences of exchanges in one process over several pairing records - records that share the identifier but
+    differ in the long-term key (accessory reset and paired again) and vice versa.  Every exchange is a case of the
+    specification judged against ITS record: honest accessory of that record; an impostor holding the long-term key of
+    another record ('otherLT'); an accessory of another record presenting its identifier ('OtherId')."""
+    rng = random.Random(ctx.seed ^ 0x5E9)
+    plain = [c for c in cases if not c["resume"] and c["m4"] == "ok" and c["r"]["st"] == "ok" and c["r"]["err"] == "none"
+             and c["r"]["corrupt"] == "none" and c["r"]["layout"] == "canon" and c["r"]["cut"] == 0]
+    hon = next((c for c in plain if c["honest"]), None)
+    imp = next((c for c in plain if c["dist"] == 1 and c["r"]["signer"] == "otherLT"), None)
+    oid = next((c for c in plain if c["dist"] == 2 and c["r"]["id"] == "OtherId" and c["r"]["tr"] == "otherId"), None)
+    if not (hon and imp and oid):
+        raise MachineryError("the cases needed for the multi-record sequences were not exported")
+    units = []
+    for n in range(ctx.pick(12, 120)):
+        mac = ["%02x" % rng.randrange(256) for _ in range(6)]
+        x = ":".join(mac).upper() if n % 2 else ":".join(mac)
+        y = ":".join(reversed(mac)).upper()
+        k1, k2 = rng.randbytes(32).hex(), rng.randbytes(32).hex()
+        ctrl = {"ios_id": "%08x-aaaa-bbbb-cccc-%012x" % (rng.getrandbits(32), rng.getrandbits(48)), "ctrl_seed": rng.randbytes(32).hex()}
+        tr = ["gen", "ble", "ip", "coap"][n % 4]
+
+        def job(case, acc_id, lt, other_lt=None, other_id=None):
+            return {"case": case, "tr": tr, "seq": n,
+                    "record": dict(ctrl, acc_id=acc_id, lt_seed=lt, other_lt_seed=other_lt, other_id=other_id)}
+        units.append([job(hon, x, k1),                    # record (X, K1)
+                      job(hon, x, k2),                    # accessory reset and paired again: record (X, K2)
+                      job(imp, x, k2, other_lt=k1),       # holder of the old key K1 against record (X, K2)
+                      job(hon, x, k1),                    # back to (X, K1)
+                      job(imp, x, k1, other_lt=k2),
+                      job(hon, y, k2),                    # same key, other identifier: record (Y, K2)
+                      job(oid, y, k2, other_id=x),        # accessory answering as X to the controller of record (Y, K2)
+                      job(hon, x, k2)])
+    return units
+
+
 def _short(case, job=None):
     r = case["r"]
     hon = {"st": "ok", "err": "none", "pub": "eA", "enc": "sub", "key": "I_A", "nonce": "PV-Msg02", "id": "AccId", "sigp": True,
@@ -169,6 +248,13 @@ def _short(case, job=None):
         s += f", M4={case['m4']}"
     if job is not None:
         s += f" via {job['tr']}"
+        if job.get("real_replay"):
+            s += " [M2 and M4 are the bytes recorded from a real honest exchange run just before in the same process]"
+        if job.get("record"):
+            rc = job["record"]
+            s += (f" [sequence {job.get('seq')}: pairing record id={rc['acc_id']} LTPK-seed={rc['lt_seed'][:8]}.."
+                  f"{', otherLT-seed=' + rc['other_lt_seed'][:8] + '..' if rc.get('other_lt_seed') else ''}"
+                  f"{', OtherId=' + rc['other_id'] if rc.get('other_id') else ''}]")
         if job.get("how"):
             s += f" alteration={job['how']}"
         if job.get("cut_bytes"):
@@ -216,6 +302,12 @@ def _jobs(ctx, cases, lens):
                     continue
                 j["cut_bytes"] = rng.randrange(1, n)
             jobs.append(j)
+    # the M2 / M4 of a REAL earlier exchange of the same process sent again into a new exchange
+    for c in cases:
+        if c.get("recorded") and c["r"]["st"] == "ok" and c["r"]["err"] == "none" and not c["resume"]:
+            for tr in ("gen", "ip", "coap", "ble"):
+                for _ in range(ctx.pick(3, 25)):
+                    jobs.append({"case": c, "tr": tr, "real_replay": True})
     # honest exchanges and single-deviation replies over fresh pairing records (identities, keys, identifiers)
     base = [c for c in cases if c["dist"] <= 1 and c["r"]["corrupt"] == "none" and not c["partial"]]
     for _ in range(ctx.pick(60, 1500)):
@@ -281,9 +373,12 @@ def run(ctx):
             raise MachineryError("the honest exchange is not among the exported cases")
         cases.sort(key=lambda c: json.dumps(c, sort_keys=True))
         lens = _field_lengths(cases)
-        jobs = _jobs(ctx, cases, lens)
+        units = [[j] for j in _jobs(ctx, cases, lens)] + _sequences(ctx, cases)
         with mp.get_context("fork").Pool(16) as pool:
-            results = pool.map(_work, jobs, chunksize=32)
+            unit_results = pool.map(_work_unit, units, chunksize=16)
+        jobs = [j for u in units for j in u]
+        results = [r for ur in unit_results for r in ur]
+        seq_units = {u[0]["seq"]: u for u in units if "seq" in u[0]}
         groups = {}
         recs = []
         tolerated = 0
@@ -292,7 +387,8 @@ def run(ctx):
             if res["observed"] == "machinery":
                 raise MachineryError(f"{_short(c, j)}: {res['exc']}")
             ctx.case((json.dumps(c["r"], sort_keys=True), c["m4"], c["resume"], j["tr"], str(j.get("how")), j.get("cut_bytes"),
-                      j.get("fresh")) if not c["honest"] else None)
+                      j.get("fresh"), j.get("real_replay"), json.dumps(j.get("record"), sort_keys=True))
+                     if not c["honest"] or j.get("record") else None)
             bad = []
             if res["observed"] == "baseexc":
                 bad.append(("raised a BaseException", res["exc"]))
@@ -321,6 +417,9 @@ def run(ctx):
             j, res, exc = items[0]
             ctx.violation(f"{_short(j['case'], j)}: {what}{' - ' + exc if exc else ''}  [{len(items)} executions fail this way]",
                           {"kind": "job", "job": _jsonable_job(j), "result": res,
+                           # a job of a sequence only means something after its predecessors in the same process
+                           "unit": [_jsonable_job(x) for x in seq_units[j["seq"]]] if "seq" in j else None,
+                           "unit_index": seq_units[j["seq"]].index(j) if "seq" in j else None,
                            "more": [_short(x[0]["case"], x[0]) for x in items[1:6]]})
         ctx.notes["cases_exported"] = len(cases)
         ctx.notes["executions"] = len(jobs)
@@ -349,7 +448,7 @@ def run(ctx):
 
 def _jsonable_job(j):
     return {"case": j["case"], "tr": j["tr"], "how": list(j["how"]) if j.get("how") else None, "cut_bytes": j.get("cut_bytes"),
-            "fresh": j.get("fresh", 0)}
+            "fresh": j.get("fresh", 0), "real_replay": j.get("real_replay", False), "record": j.get("record"), "seq": j.get("seq")}
 
 
 def _replay(ctx):
@@ -357,6 +456,9 @@ def _replay(ctx):
     j = data["replay"]["job"]
     if j.get("how"):
         j["how"] = tuple(j["how"])
+    if data["replay"].get("unit"):
+        for x in data["replay"]["unit"][:data["replay"]["unit_index"]]:
+            run_job(x)
     res = run_job(j)
     c = j["case"]
     print(f"replay: {_short(c, j)} -> {res}")
